@@ -99,9 +99,12 @@ func Canonical(yaml map[string]any, ignoreParseError bool) (map[string]any, erro
 		}
 
 		if !opts.SkipValidation {
+			// what was merged in from an earlier file or an included project has been through OmitEmpty: its empty lists are nil again
+			fixEmptyNotNull(dict)
 			if err := schema.Validate(dict); err != nil {
 				return fmt.Errorf("validating %s: %w", file.Filename, err)
 			}''', '''		if !opts.SkipValidation {
+			fixEmptyNotNull(dict)
 			if err := schema.Validate(dict); err != nil {
 				return fmt.Errorf("validating %s: %w", file.Filename, err)
 			}
@@ -403,6 +406,26 @@ func (u UnitBytes) MarshalJSON() ([]byte, error) {
 		return value, nil
 	}
 	return resolved, nil''', "a failed link resolution returns the raw value and no error (ERRMUST)"),
+ ("C06", "validate-before-nil-repair", "K", "loader/loader.go",
+  '''			fixEmptyNotNull(dict)
+			if err := schema.Validate(dict); err != nil {''',
+  '''			if err := schema.Validate(dict); err != nil {''', "the merged tree is validated with the nil lists OmitEmpty left in an earlier file / an included project (VALIDNIL; the defect repaired by 4d6dc3a)"),
+ ("C04", "validate-before-nil-repair", "K", "loader/loader.go",
+  '''			fixEmptyNotNull(dict)
+			if err := schema.Validate(dict); err != nil {''',
+  '''			if err := schema.Validate(dict); err != nil {''', "`[]` in the first of two files makes the merged model invalid (VALIDNIL)"),
+ ("C04", "volume-key-not-cleaned", "K", "override/uncity.go",
+  '''		return path.Clean(volume.Target), nil''',
+  '''		return volume.Target, nil''', "short-syntax mounts keyed by the target as written: /data/ and /data are two entries (IDXCLEAN; the defect repaired by b7b0932)"),
+ ("C13", "traversal-options-shared", "K", "graph/traversal.go",
+  '''func newTraversal[S, T any](fn CollectorFn[S, T]) *traversal[S, T] {
+	return &traversal[S, T]{
+		Options: &Options{},''',
+  '''var sharedOptions = Options{}
+
+func newTraversal[S, T any](fn CollectorFn[S, T]) *traversal[S, T] {
+	return &traversal[S, T]{
+		Options: &sharedOptions,''', "every walk writes its options into one package-level value (GLOBADDR)"),
 ]
 
 
